@@ -17,6 +17,10 @@ import (
 type Faults struct {
 	// batch call level
 	Batch429, Batch5xx, Batch4xx, BatchBadJSON, BatchHashAlgo, BatchWrongTransfer int
+	// BatchCorrupt: one single-field corruption of an otherwise valid response
+	BatchCorrupt int
+	// ObjForeign: an extra entry for an object requested in an earlier batch
+	ObjForeign int
 	// batch per-object shapes
 	ObjError, ObjOmit, ObjTwice, ObjUnknown, ObjExpired, ObjNoAction, ObjSoonExpire int
 	// storage GET
@@ -90,6 +94,9 @@ type Offer struct {
 	BatchSeq  int
 	Used      int
 	UsedAt    []int // request sequence numbers that used it
+	// Tainted: the response that carried this offer was corrupted on
+	// purpose, so the client may not have seen it as issued.
+	Tainted bool
 }
 
 // BatchRec is the server's record of one batch exchange.
@@ -102,6 +109,7 @@ type BatchRec struct {
 	Shapes   map[string]string // oid -> shape given (action, noaction, error, omit, twice, expired)
 	Unknown  []string
 	Transfer string
+	Corrupt  string
 }
 
 // Deferral records a 429 with Retry-After the server issued.
@@ -450,10 +458,47 @@ func (s *LFSServer) serveBatch(rec *ReqRec) *Resp {
 		out.Objects = append(out.Objects[:pos], append([]*BatchObj{bo}, out.Objects[pos:]...)...)
 		br.Unknown = append(br.Unknown, u)
 	}
+	if len(s.Batches) > 1 && s.hit(key, s.F.ObjForeign, "obj.foreign") {
+		// an object this client asked about in an earlier batch, but not now
+		asked := map[string]bool{}
+		for _, o := range br.Req.Objects {
+			asked[o.Oid] = true
+		}
+		var cands []string
+		seenC := map[string]bool{}
+		for _, pb := range s.Batches[:len(s.Batches)-1] {
+			for _, o := range pb.Req.Objects {
+				if !asked[o.Oid] && !seenC[o.Oid] {
+					seenC[o.Oid] = true
+					cands = append(cands, o.Oid)
+				}
+			}
+		}
+		if len(cands) > 0 {
+			u := cands[s.C.Choose(key, len(cands), "foreign-pick")]
+			bo := &BatchObj{Oid: u, Size: int64(len(s.Store[u])), Actions: map[string]*BatchAct{}}
+			a, _ := s.newOffer(op, u, bo.Size, len(s.Batches)-1, false, false)
+			bo.Actions[op] = a
+			out.Objects = append(out.Objects, bo)
+			br.Unknown = append(br.Unknown, u)
+			noteExtra += "+foreign"
+		}
+	}
 	if out.Objects == nil {
 		out.Objects = []*BatchObj{}
 	}
 	b, _ := json.Marshal(out)
+	if noteExtra == "" && s.hit(key, s.F.BatchCorrupt, "batch.corrupt") {
+		var what string
+		b, what = corruptJSON(s.C, key, b)
+		noteExtra += "+corrupt(" + what + ")"
+		br.Corrupt = what
+		for _, o := range s.Offers {
+			if o.BatchSeq == len(s.Batches)-1 {
+				o.Tainted = true
+			}
+		}
+	}
 	return finish(JSONResp(200, b), "batch.200"+noteExtra)
 }
 
@@ -461,19 +506,32 @@ func (s *LFSServer) findOffer(rec *ReqRec, rel, oid string) *Offer {
 	tok := rec.Header.Get("X-Sim-Token")
 	o := s.Offers[tok]
 	if o == nil {
+		// A request following a deliberately corrupted response cannot
+		// be judged against what was offered.
+		for _, t := range s.Offers {
+			if t.Tainted && (t.Href == rec.URL || (t.Oid == oid && oid != "")) {
+				return nil
+			}
+		}
 		s.Problems = append(s.Problems, fmt.Sprintf("req#%d %s %s: no action was offered for this request (token %q)", rec.Seq, rec.Method, rec.URL, tok))
 		return nil
 	}
+	o.Used++
+	o.UsedAt = append(o.UsedAt, rec.Seq)
+	if o.Tainted {
+		return o
+	}
 	if o.Rel != rel || (rel != "verify" && o.Oid != oid) {
 		s.Problems = append(s.Problems, fmt.Sprintf("req#%d %s %s uses action %s offered for %s %s", rec.Seq, rec.Method, rec.URL, tok, o.Rel, o.Oid))
+	}
+	if rec.URL != o.Href {
+		s.Problems = append(s.Problems, fmt.Sprintf("req#%d %s %s: action %s was offered with href %s", rec.Seq, rec.Method, rec.URL, tok, o.Href))
 	}
 	for k, v := range o.Header {
 		if rec.Header.Get(k) != v {
 			s.Problems = append(s.Problems, fmt.Sprintf("req#%d %s %s: header %s offered with the action is missing or altered", rec.Seq, rec.Method, rec.URL, k))
 		}
 	}
-	o.Used++
-	o.UsedAt = append(o.UsedAt, rec.Seq)
 	return o
 }
 
@@ -706,4 +764,107 @@ func (s *LFSServer) serveVerify(rec *ReqRec) *Resp {
 	r := JSONResp(200, []byte(`{}`))
 	r.Note = "verify.200"
 	return r
+}
+
+// corruptJSON applies one single-field corruption to a valid JSON document:
+// it walks the document, collects every (container, key) position, picks one
+// and replaces / removes / retypes the value there, or adds an unknown field.
+func corruptJSON(c Chooser, key string, b []byte) ([]byte, string) {
+	var doc interface{}
+	if json.Unmarshal(b, &doc) != nil {
+		return b, "not-json"
+	}
+	type pos struct {
+		m    map[string]interface{}
+		a    []interface{}
+		k    string
+		i    int
+		path string
+	}
+	var ps []pos
+	var walk func(v interface{}, path string)
+	walk = func(v interface{}, path string) {
+		switch t := v.(type) {
+		case map[string]interface{}:
+			keys := make([]string, 0, len(t))
+			for k := range t {
+				keys = append(keys, k)
+			}
+			sortStrings(keys)
+			for _, k := range keys {
+				ps = append(ps, pos{m: t, k: k, path: path + "." + k})
+				walk(t[k], path+"."+k)
+			}
+		case []interface{}:
+			for i := range t {
+				ps = append(ps, pos{a: t, i: i, path: fmt.Sprintf("%s[%d]", path, i)})
+				walk(t[i], fmt.Sprintf("%s[%d]", path, i))
+			}
+		}
+	}
+	walk(doc, "$")
+	if len(ps) == 0 {
+		return b, "empty"
+	}
+	p := ps[c.Choose(key, len(ps), "corrupt-pos")]
+	muts := []string{"null", "string", "number", "negative", "bool", "array", "object", "delete", "extra-field", "empty-string", "upper", "relative-url", "ftp-url"}
+	mut := muts[c.Choose(key, len(muts), "corrupt-kind")]
+	var nv interface{}
+	switch mut {
+	case "null":
+		nv = nil
+	case "string":
+		nv = "surprise"
+	case "number":
+		nv = 12345
+	case "negative":
+		nv = -7
+	case "bool":
+		nv = true
+	case "array":
+		nv = []interface{}{"x"}
+	case "object":
+		nv = map[string]interface{}{"x": 1}
+	case "empty-string":
+		nv = ""
+	case "relative-url":
+		nv = "/objects/relative"
+	case "ftp-url":
+		nv = "ftp://storage.sim/objects/x"
+	case "upper":
+		var cur interface{}
+		if p.m != nil {
+			cur = p.m[p.k]
+		} else {
+			cur = p.a[p.i]
+		}
+		if sv, ok := cur.(string); ok {
+			nv = strings.ToUpper(sv)
+		} else {
+			nv = "UPPER"
+		}
+	}
+	switch {
+	case mut == "delete" && p.m != nil:
+		delete(p.m, p.k)
+	case mut == "extra-field" && p.m != nil:
+		p.m["x_unknown_field"] = map[string]interface{}{"nested": []interface{}{1, "two"}}
+	case p.m != nil:
+		p.m[p.k] = nv
+	default:
+		p.a[p.i] = nv
+	}
+	nb, err := json.Marshal(doc)
+	if err != nil {
+		return b, "marshal-failed"
+	}
+	return nb, p.path + "=" + mut
+}
+
+func sortStrings(a []string) {
+	for i := 1; i < len(a); i++ {
+		for j := i; j > 0 && a[j] < a[j-1]; j-- {
+			a[j], a[j-1] = a[j-1], a[j]
+		}
+	}
 }
